@@ -167,11 +167,13 @@ RpcDone(x, i) == IF x.cup[i] = "done" /\ x.cdn[i] = "done" THEN [x EXCEPT !.rpc[
 
 -----------------------------------------------------------------------------
 (* RouteTCP: accept loop                                                      *)
-G_LocalDial(x, i) == x.lapp[i] = "none" /\ (IF i = 1 THEN TRUE ELSE x.lapp[i - 1] # "none") /\ x.loop = 0
-E_LocalDial(x, i) == [x EXCEPT !.lapp[i] = "open", !.lrel[i] = "open", !.loop = i]
-
 Shared == ~Singleplex \/ "SingleShared" \in Dev
 NeedNew(x) == IF x.cur = 0 THEN TRUE ELSE (x.cs[x.cur] = "closed" /\ "NoIsClosedCheck" \notin Dev)
+\* (model bound: a connection is dialled only while the session it may need can still be made)
+G_LocalDial(x, i) == /\ x.lapp[i] = "none" /\ (IF i = 1 THEN TRUE ELSE x.lapp[i - 1] # "none") /\ x.loop = 0
+                     /\ x.nsess < MaxSess \/ (Shared /\ ~NeedNew(x) /\ "RemakeAlways" \notin Dev)
+E_LocalDial(x, i) == [x EXCEPT !.lapp[i] = "open", !.lrel[i] = "open", !.loop = i]
+
 G_NeedSession(x) == x.loop # 0 /\ (Shared /\ (NeedNew(x) \/ "RemakeAlways" \in Dev) => x.nsess < MaxSess)
 E_NeedSession(x) ==
   LET i == x.loop IN
